@@ -7,10 +7,11 @@ set -e
 cd /verif
 MC=$(GOFLAGS=-mod=mod go1.26.8 env GOMODCACHE)
 TP=/verif/.third_party
-stamp="$TP/.stamp-v2"
+stamp="$TP/.stamp-v3"
 [ -f "$stamp" ] && exit 0
 rm -rf "$TP"; mkdir -p "$TP"
 cp -r "$MC/github.com/avast/retry-go/v4@v4.7.0" "$TP/retry-go"
+cp -r "$MC/github.com/tidwall/wal@v1.2.1" "$TP/wal"
 chmod -R u+w "$TP"
 python3 - <<'PY'
 import sys
@@ -30,6 +31,17 @@ func (t *timerImpl) After(d time.Duration) <-chan time.Time {
 	}
 	return time.After(d)
 }''')
+PY
+python3 - <<'PY'
+import sys
+def patch(path, old, new):
+    s = open(path).read()
+    if s.count(old) != 1:
+        sys.exit(f"third_party: anchor not found exactly once in {path}: {old!r}")
+    open(path, 'w').write(s.replace(old, new, 1))
+# tidwall/wal: every mutating file-system operation goes through verif/engine/vos, which calls
+# vos.BeforeOp / vos.BeforeWrite (crash-image hooks) and is otherwise the os package
+patch('/verif/.third_party/wal/wal.go', '\t"os"\n', '\tos "verif/engine/vos"\n')
 PY
 touch "$stamp"
 echo "third_party ready"
